@@ -1,0 +1,206 @@
+//go:build verif
+
+// Contracts for package peersync (comment-only, read by /verif/govc; never compiled
+// into the product: the build tag "verif" is not set by any build of peerswap).
+package peersync
+
+// ---------------------------------------------------------------------------
+// C28: the stored capability is the most recent poll unless that poll
+// advertises a lower protocol version.
+// ---------------------------------------------------------------------------
+//@ func (*SyncLogic).MergeCapabilities
+//@ property C28
+//@ ensures @C28 same-or-newer-wins: (local != nil && remote != nil && remote.version.value >= local.version.value) ==> result == remote
+//@ ensures @C28 lower-version-ignored: (local != nil && remote != nil && remote.version.value < local.version.value) ==> result == local
+//@ ensures @C28 first-contact: local == nil ==> result == remote
+//@ ensures @C28 nothing-new: (local != nil && remote == nil) ==> result == local
+//@ assigns nothing
+
+// the capability a poll / request-poll message carries (JSON decoding and
+// validation of the payload are outside the verifier: any capability or an error)
+//@ ghost parsedCap *PeerCapability
+//@ ghost knownCap *PeerCapability
+//@ ghost savedAny bool
+
+//@ func (*messageHandler).parseCapabilityMessage
+//@ trusted
+//@ ensures result1 == nil ==> result0 != nil
+//@ ensures result1 != nil ==> result0 == nil
+//@ sets ghost.parsedCap = result0
+//@ assigns nothing
+
+// the peer as stored before the message (a fresh peer without capability if unknown)
+//@ func (*messageHandler).findPeer
+//@ property C28
+//@ requires h != nil
+//@ ensures result1 == nil ==> (result0 != nil && result0.id.value == peerID.value)
+//@ sets ghost.knownCap = ite(result0 != nil, result0.capability, nil)
+//@ assigns ghost.lookedUp
+
+// any policy: the guard's answer for a peer is arbitrary but recorded
+// (ASSUMED: the policy does not change while one message / one poll round is handled)
+//@ interface PeerGuard.Suspicious
+//@ ensures result == uf("peerSuspicious", false, peer.value)
+//@ assigns nothing
+
+// the bbolt-backed store is outside the verifier: saving a peer is the
+// observable effect; its preconditions are what C28 / C26 demand of every save
+//@ func (*Store).SavePeerState
+//@ trusted
+//@ requires @C28,in:msg stored-is-latest-unless-lower-version: peer != nil && ghost.parsedCap != nil && peer.capability == ite(ghost.knownCap == nil || ghost.parsedCap.version.value >= ghost.knownCap.version.value, ghost.parsedCap, ghost.knownCap)
+//@ requires @C26,in:msg never-for-a-quarantined-peer: !uf("peerSuspicious", false, peer.id.value)
+//@ sets ghost.savedAny = true
+//@ assigns nothing
+
+// (ASSUMED: the bucket is keyed by peer id; a record is returned under the id it was saved with)
+//@ func (*Store).GetPeerState
+//@ trusted
+//@ ensures result1 == nil ==> (result0 != nil && result0.id.value == id.value)
+//@ sets ghost.lookedUp = result0
+//@ assigns nothing
+
+//@ func (*messageHandler).storeCapabilityMessage
+//@ property C28 C26
+//@ requires h != nil && h.logic != nil && h.guard != nil && !ghost.savedAny
+//@ ensures @C26 quarantined-peer-not-stored: uf("peerSuspicious", false, msg.From.value) ==> !ghost.savedAny
+//@ ensures @C28 stored-on-success: (result1 == nil && !uf("peerSuspicious", false, msg.From.value)) ==> ghost.savedAny
+
+// ---------------------------------------------------------------------------
+// C26 (peer-sync side): a quarantined peer gets no answer to its request poll
+// and is not polled or asked for a poll.
+// ---------------------------------------------------------------------------
+//@ ghost sentTo string
+//@ ghost sentAny bool
+
+//@ callback messageHandler.send
+//@ requires @C26,in:msg no-answer-to-quarantined-peer: !uf("peerSuspicious", false, peer.value)
+//@ sets ghost.sentAny = true
+//@ assigns nothing
+
+//@ func (*messageHandler).handleRequestPollMessage
+//@ property C26
+//@ requires h != nil && h.logic != nil && h.guard != nil && !ghost.savedAny && !ghost.sentAny
+//@ ensures @C26 quarantined-peer-ignored: uf("peerSuspicious", false, msg.From.value) ==> (!ghost.sentAny && !ghost.savedAny)
+
+// ---------------------------------------------------------------------------
+// C28: a peer counts as compatible only if its stored capability has this
+// node's protocol version.
+// ---------------------------------------------------------------------------
+//@ func (*Peer).IsCompatibleWith
+//@ property C28
+//@ requires p != nil
+//@ ensures @C28 same-version-only: result <==> (p.capability != nil && p.capability.version.value == version.value)
+//@ assigns nothing
+
+//@ func (*PeerSync).HasCompatiblePeer
+//@ property C28
+//@ ensures @C28 needs-stored-capability-of-local-version: result ==> (ps != nil && ps.store != nil && ghost.lookedUp != nil && ghost.lookedUp.capability != nil && ghost.lookedUp.capability.version.value == ps.version.value)
+//@ ghost lookedUp *Peer
+
+// ---------------------------------------------------------------------------
+// C28: poll requests to unknown connected peers go out at most once per
+// request interval unless forced (the attempt is recorded whenever allowed).
+// ---------------------------------------------------------------------------
+//@ ghost allowedPeer string
+//@ ghost allowed bool
+
+//@ func (*poller).allowRequest
+//@ property C28
+//@ requires p != nil && p.lastRequestedAt != nil
+//@ ensures @C28 forced-first-or-interval-elapsed: result <==> (force || !old(has(p.lastRequestedAt, peerID)) || !(now.Sub(old(p.lastRequestedAt[peerID])) < p.requestInterval))
+//@ ensures @C28 attempt-recorded: result ==> (has(p.lastRequestedAt, peerID) && p.lastRequestedAt[peerID] == now)
+//@ ensures @C28 refused-keeps-time: !result ==> (has(p.lastRequestedAt, peerID) && p.lastRequestedAt[peerID] == old(p.lastRequestedAt[peerID]))
+//@ sets ghost.allowedPeer = peerID.value
+//@ sets ghost.allowed = result
+//@ assigns p.lastRequestedAt[peerID]
+
+//@ callback poller.send
+//@ requires @C26 not-to-a-quarantined-peer: recv.guard != nil ==> !uf("peerSuspicious", false, peer.value)
+//@ requires @C28,in:knownPeers request-was-allowed: ghost.allowed && ghost.allowedPeer == peer.value
+//@ assigns nothing
+
+//@ func (*poller).connectedPeers
+//@ trusted
+//@ ensures result1 == nil ==> result0 != nil
+//@ sets ghost.connectedSet = result0
+//@ assigns nothing
+
+//@ func (*poller).pruneRequestTimes
+//@ property C28
+//@ requires p != nil
+//@ assigns p.lastRequestedAt[_]
+
+//@ func (*poller).requestUnknownConnectedPeers
+//@ property C28 C26
+//@ requires p != nil && p.lastRequestedAt != nil
+
+//@ func (*poller).pollPeers
+//@ property C26
+//@ requires p != nil && p.lastRequestedAt != nil
+
+// ---------------------------------------------------------------------------
+// C28: expired peers are removed only while disconnected. The sweep is handed
+// exactly the set of currently connected peers, and a record whose key is in
+// that set is never given to the function that may delete it.
+// ---------------------------------------------------------------------------
+//@ ghost connectedSet map[PeerID]struct{}
+
+//@ func (*Store).CleanupExpiredExcept
+//@ property C28
+//@ requires @C28,in:ctx keeps-connected-peers: keepPeers == ghost.connectedSet
+
+//@ func (*poller).cleanupExpired
+//@ property C28
+//@ requires p != nil && p.store != nil
+
+//@ func (*Store).processPeerRecord
+//@ requires @C28,in:keepPeers only-disconnected-records: !(len(keepPeers) != 0 && string(key) != "" && len(string(key)) <= 128 && has(keepPeers, string(key)))
+
+//@ func (*Store).CleanupExpiredExcept$1
+//@ property C28
+//@ requires s != nil
+
+// a record is kept exactly when its key is the id of a peer in the keep set
+//@ func shouldKeepPeer
+//@ property C28
+//@ ensures @C28 keeps-exactly-the-listed: result <==> (len(keepPeers) != 0 && string(key) != "" && len(string(key)) <= 128 && has(keepPeers, string(key)))
+//@ assigns nothing
+
+// ---------------------------------------------------------------------------
+// C28: stored peer records reload unchanged (scalar fields; the asset list is
+// NOT covered: its element-wise copy loops are cut without a content invariant).
+// Two halves: what is written for a peer, and what a record is read back as.
+// ---------------------------------------------------------------------------
+//@ define ppmOf(r) ite(r != nil, r.ppmValue, 0)
+
+//@ func SnapshotFromCapability
+//@ property C28
+//@ ensures @C28 nil-for-nil: capability == nil <==> result == nil
+//@ ensures @C28 version: capability != nil ==> result.Version == capability.version.value
+//@ ensures @C28 allowed: capability != nil ==> result.PeerAllowed == capability.isPeerAllowed
+//@ ensures @C28 premiums: capability != nil ==> (result.BTCSwapInPremiumRatePPM == ppmOf(capability.btcSwapInPremiumRate) && result.BTCSwapOutPremiumRatePPM == ppmOf(capability.btcSwapOutPremiumRate) && result.LBTCSwapInPremiumRatePPM == ppmOf(capability.lbtcSwapInPremiumRate) && result.LBTCSwapOutPremiumRatePPM == ppmOf(capability.lbtcSwapOutPremiumRate))
+//@ assigns nothing
+
+//@ func (*PeerCapabilitySnapshot).ToCapability
+//@ property C28
+//@ ensures @C28 nil-for-nil: s == nil ==> (result0 == nil && result1 == nil)
+//@ ensures @C28 version: (s != nil && result1 == nil) ==> (result0 != nil && result0.version.value == s.Version)
+//@ ensures @C28 allowed: (s != nil && result1 == nil) ==> result0.isPeerAllowed == s.PeerAllowed
+//@ ensures @C28 premiums: (s != nil && result1 == nil) ==> (ppmOf(result0.btcSwapInPremiumRate) == s.BTCSwapInPremiumRatePPM && ppmOf(result0.btcSwapOutPremiumRate) == s.BTCSwapOutPremiumRatePPM && ppmOf(result0.lbtcSwapInPremiumRate) == s.LBTCSwapInPremiumRatePPM && ppmOf(result0.lbtcSwapOutPremiumRate) == s.LBTCSwapOutPremiumRatePPM)
+//@ ensures @C28 premiums-in-range: (s != nil && result1 == nil) ==> (s.BTCSwapInPremiumRatePPM >= -1000000 && s.BTCSwapInPremiumRatePPM <= 1000000 && s.LBTCSwapOutPremiumRatePPM >= -1000000 && s.LBTCSwapOutPremiumRatePPM <= 1000000)
+//@ assigns nothing
+
+//@ func peerToRecord
+//@ property C28
+//@ requires peer != nil
+//@ ensures @C28 identity: result != nil && result.ID == peer.id.value && result.Address == peer.address && result.Status == peer.status
+//@ ensures @C28 times: result.LastPollAt == peer.lastPollAt && result.LastSeen == peer.lastObservedAt
+//@ ensures @C28 capability: peer.capability != nil ==> (result.Version == peer.capability.version.value && result.PeerAllowed == peer.capability.isPeerAllowed && result.BTCSwapInPremiumRatePPM == ppmOf(peer.capability.btcSwapInPremiumRate) && result.BTCSwapOutPremiumRatePPM == ppmOf(peer.capability.btcSwapOutPremiumRate) && result.LBTCSwapInPremiumRatePPM == ppmOf(peer.capability.lbtcSwapInPremiumRate) && result.LBTCSwapOutPremiumRatePPM == ppmOf(peer.capability.lbtcSwapOutPremiumRate))
+//@ ensures @C28 no-capability: peer.capability == nil ==> (result.Version == 0 && !result.PeerAllowed && result.BTCSwapInPremiumRatePPM == 0 && result.BTCSwapOutPremiumRatePPM == 0 && result.LBTCSwapInPremiumRatePPM == 0 && result.LBTCSwapOutPremiumRatePPM == 0)
+
+//@ func (*peerRecord).toPeer
+//@ property C28
+//@ requires r != nil
+//@ ensures @C28 identity: result1 == nil ==> (result0 != nil && result0.id.value == ite(r.ID != "", r.ID, key) && result0.address == r.Address && result0.status == ite(r.Status != "", r.Status, StatusUnknown))
+//@ ensures @C28 times: result1 == nil ==> ((!r.LastPollAt.IsZero() ==> result0.lastPollAt == r.LastPollAt) && (!r.LastSeen.IsZero() ==> result0.lastObservedAt == r.LastSeen))
+//@ ensures @C28 capability: (result1 == nil && (r.Version != 0 || r.PeerAllowed || r.BTCSwapInPremiumRatePPM != 0 || r.BTCSwapOutPremiumRatePPM != 0 || r.LBTCSwapInPremiumRatePPM != 0 || r.LBTCSwapOutPremiumRatePPM != 0)) ==> (result0.capability != nil && result0.capability.version.value == r.Version && result0.capability.isPeerAllowed == r.PeerAllowed && ppmOf(result0.capability.btcSwapInPremiumRate) == r.BTCSwapInPremiumRatePPM && ppmOf(result0.capability.btcSwapOutPremiumRate) == r.BTCSwapOutPremiumRatePPM && ppmOf(result0.capability.lbtcSwapInPremiumRate) == r.LBTCSwapInPremiumRatePPM && ppmOf(result0.capability.lbtcSwapOutPremiumRate) == r.LBTCSwapOutPremiumRatePPM)
